@@ -75,10 +75,16 @@ class RecProtocol(protocol.Protocol):
             self.after_lost += 1
         self.data.append(data)
         self.side.on_sub_event(self, "data", data)
+        g = getattr(self.side.world, "reactive", None)
+        if g is not None:
+            g(self, "data")
 
     def connectionLost(self, reason=None):
         self.lost += 1
         self.side.on_sub_event(self, "lost", None)
+        g = getattr(self.side.world, "reactive", None)
+        if g is not None:
+            g(self, "lost")
 
 
 class RecFactory(protocol.Factory):
